@@ -237,6 +237,15 @@ static void runCase(const std::vector<std::string>& lines) {
         else if (cmd == "P.setu") { size_t v = tk.u64(); GUARD(P.set(v); fprintf(g_out, "ok\n")); }
         else if (cmd == "P.setf") { float v = tk.flt(); GUARD(P.set(v); fprintf(g_out, "ok\n")); }
         else if (cmd == "P.sets") { std::string v = tk.str(); GUARD(P.set(v); fprintf(g_out, "ok\n")); }
+        else if (cmd == "P.as") {   // typed getter on the caller's parameter register
+            std::string ty = tk.next();
+            GUARD(const Param& p = P; std::string s = "ok";
+                  if (ty == "C") { for (auto& e : p.valuesAsString()) s += " " + hexs(e); }
+                  else if (ty == "B") { for (int e : p.valuesAsByte()) s += " " + z(e); }
+                  else if (ty == "I") { for (int e : p.valuesAsInt()) s += " " + z(e); }
+                  else { for (float e : p.valuesAsFloat()) s += " " + hexf(e); }
+                  fprintf(g_out, "%s\n", s.c_str()));
+        }
         else if (cmd == "P.show") { GUARD(fprintf(g_out, "ok %s\n", paramBody(P).c_str())); }
         else if (cmd == "param") { int k = (int)tk.i64(); std::string g = tk.str(); GUARD(O(k).parameter(g, P); fprintf(g_out, "ok\n")); }
         else if (cmd == "lock") { int k = (int)tk.i64(); std::string g = tk.str(); GUARD(O(k).lockGroup(g); fprintf(g_out, "ok\n")); }
@@ -259,6 +268,10 @@ static void runCase(const std::vector<std::string>& lines) {
         else if (cmd == "F.addch") { int j = (int)tk.i64(); size_t s = tk.u64(); Channel ch; ch.name(tk.str()); ch.data(tk.flt()); GUARD(reg[j].analogs_nonConst().subframe_nonConst(s).channel(ch); fprintf(g_out, "ok\n")); }
         else if (cmd == "F.show") { int j = (int)tk.i64(); GUARD(dumpFrame(reg[j], 0); fprintf(g_out, "E\n")); }
         else if (cmd == "frameR") { int k = (int)tk.i64(); size_t idx = tk.idx(); int j = (int)tk.i64(); GUARD(O(k).frame(reg[j], idx); fprintf(g_out, "ok\n")); }
+        else if (cmd == "frameD") {   // hand a stored frame back to the object: c.frame(c.data().frame(f), idx)
+            int k = (int)tk.i64(); size_t idx = tk.idx(); size_t f = tk.u64();
+            GUARD(O(k).frame(O(k).data().frame(f), idx); fprintf(g_out, "ok\n"));
+        }
         else if (cmd == "pointcolR" || cmd == "analogcolR") {
             int k = (int)tk.i64(); size_t n = tk.u64(); std::vector<Frame> fs;
             for (size_t i = 0; i < n; ++i) fs.push_back(reg[(int)tk.i64()]);
